@@ -110,7 +110,7 @@ prop("C19",
                        ("MC_SoftCollection", "Gen_SoftCollection_ptr.cfg")],
      driver=lambda tier, seed, gen, out: ["softcol", "-gen", gen, "-out", out, "-seed", str(seed)] +
      _t(tier, ["-sample", "500", "-walks", "60", "-depth", "40"],
-        ["-sample", "12000", "-variants", "2", "-walks", "1500", "-depth", "60"]),
+        ["-sample", "6000", "-variants", "2", "-walks", "800", "-depth", "60"]),
      trace=("Trace_SoftCollection", "Trace_SoftCollection.cfg"),
      required=["SetType:ok", "Add:ok", "Add:soft", "Add:wrap", "Remove:ok", "AddAttr:ok", "AddAttr:err", "AddRel:ok",
                "AddRel:err", "SetSrc:ok"],
